@@ -179,6 +179,18 @@ func (a *av1PktAdapter) Unmarshal(b []byte) ([]byte, error) {
 func (a *av1PktAdapter) IsPartitionHead(b []byte) bool         { return false }
 func (a *av1PktAdapter) IsPartitionTail(m bool, _ []byte) bool { return m }
 
+// zeroAllocSetter is the option all video depacketizers share (videoDepacketizer mixin).
+type zeroAllocSetter interface{ SetZeroAllocation(bool) }
+
+// newDepackOpt builds a depacketizer with the zero-allocation option drawn by the caller.
+func newDepackOpt(kind int, zeroAlloc bool) rtp.Depacketizer {
+	d := newDepack(kind)
+	if z, ok := d.(zeroAllocSetter); ok && zeroAlloc {
+		z.SetZeroAllocation(true)
+	}
+	return d
+}
+
 func newDepack(kind int) rtp.Depacketizer {
 	switch kind {
 	case kH264:
